@@ -156,7 +156,7 @@ theorem C04_ugc_urls (input : Bytes) :
   intro k hk htt b hb hpos
   have hreq : Gen.ugcPolicy.ensureInit.requireParseableURLs = true := by rw [ugc_init]; decide
   have hnr : Gen.ugcPolicy.ensureInit.srcRewriter = none := by rw [ugc_init]; rfl
-  obtain ⟨raw, hv⟩ := C03_bytes Gen.ugcPolicy ugc_plain hreq input k hk htt b hb hpos (fun _ => hnr)
+  obtain ⟨raw, hv⟩ := C03_bytes Gen.ugcPolicy ugc_plain.toC hreq input k hk htt b hb hpos (fun _ => hnr)
   obtain ⟨_, u, _, hprint, hacc⟩ := validURL_sound _ raw b.val hreq hv
   refine ⟨u, hprint, ?_⟩
   rw [ugc_init] at hacc
@@ -186,7 +186,7 @@ theorem C04_ugc_urls_browser (input : Bytes) :
   intro k hk htt b hb hpos
   have hreq : Gen.ugcPolicy.ensureInit.requireParseableURLs = true := by rw [ugc_init]; decide
   have hnr : Gen.ugcPolicy.ensureInit.srcRewriter = none := by rw [ugc_init]; rfl
-  obtain ⟨raw, hv⟩ := C03_bytes Gen.ugcPolicy ugc_plain hreq input k hk htt b hb hpos (fun _ => hnr)
+  obtain ⟨raw, hv⟩ := C03_bytes Gen.ugcPolicy ugc_plain.toC hreq input k hk htt b hb hpos (fun _ => hnr)
   rcases C03_browser _ hreq raw b.val hv with ⟨s, hcl, _, hs⟩ | ⟨hrel, _, _⟩
   · left
     refine ⟨s, hcl, ?_⟩
